@@ -1186,6 +1186,9 @@ class Interp:
                     raise Decline("auto-extend through an intermediate array level")
                 if not (is_map(nxt) or is_arr(nxt)):
                     raise Decline("indexing through a scalar on assignment")
+                if is_map(nxt) and is_int(idxs[n + 1]):
+                    # a map is indexed by ints as by strings ("3" and 3 are the same key, maps page), wherever it is held
+                    self.feats.add("int-index-into-map-held-in-array")
                 cur = nxt
             else:
                 raise Decline("indexing through a scalar on assignment")
